@@ -482,7 +482,13 @@ func (e *Engine) findCandidates(s *Solver, fn *ssa.Function, args []Value, names
 	}
 	useGround := !goalGround.IsTrue()
 	total := n + len(targets)
+	// the search is a convenience (a failing input makes the report replayable), not part of
+	// the verdict: it gets a fixed time budget per obligation
+	deadline := time.Now().Add(40 * time.Second)
 	for k := 0; k < total; k++ {
+		if time.Now().After(deadline) {
+			break
+		}
 		var extra []*Term
 		if k >= n {
 			extra = []*Term{targets[k-n]}
